@@ -67,6 +67,10 @@ pub struct Params {
     pub openers: u32,
     pub preexisting: bool,
     pub hold: bool,
+    /// C13: the opener clones its handle and drops the clone while it keeps using the database
+    pub clone_drop: bool,
+    /// C13: a blocked flock is interrupted by a signal after this many waits (0 = never)
+    pub eintr_after: u32,
 }
 
 impl Params {
@@ -84,6 +88,8 @@ impl Params {
                 openers: 0,
                 preexisting: true,
                 hold: false,
+                clone_drop: false,
+                eintr_after: 0,
             },
             "C09" => Params {
                 keys: 3,
@@ -96,6 +102,8 @@ impl Params {
                 openers: 0,
                 preexisting: true,
                 hold: r.chance(1, 4),
+                clone_drop: false,
+                eintr_after: 0,
             },
             _ => Params {
                 keys: 2,
@@ -108,12 +116,15 @@ impl Params {
                 openers: r.range(2, 3) as u32,
                 preexisting: r.chance(1, 2),
                 hold: r.chance(1, 2),
+                clone_drop: r.chance(1, 2),
+                eintr_after: if r.chance(1, 4) { r.range(1, 6) as u32 } else { 0 },
             },
         }
     }
     pub fn to_json(&self) -> Value {
         json!({"keys": self.keys, "commits": self.commits, "readers": self.readers, "writers": self.writers, "rounds": self.rounds,
-            "rereads": self.rereads, "grow": self.grow, "openers": self.openers, "preexisting": self.preexisting, "hold": self.hold})
+            "rereads": self.rereads, "grow": self.grow, "openers": self.openers, "preexisting": self.preexisting, "hold": self.hold,
+            "clone_drop": self.clone_drop, "eintr_after": self.eintr_after})
     }
     pub fn from_json(v: &Value) -> Option<Params> {
         let u = |k: &str| v.get(k).and_then(|x| x.as_u64()).map(|x| x as u32);
@@ -129,6 +140,8 @@ impl Params {
             openers: u("openers")?,
             preexisting: b("preexisting")?,
             hold: b("hold")?,
+            clone_drop: b("clone_drop").unwrap_or(false),
+            eintr_after: u("eintr_after").unwrap_or(0),
         })
     }
 }
@@ -494,19 +507,37 @@ fn scenario_c13(p: Params, path: String) {
     let inside = Arc::new(AtomicU64::new(0));
     // markers of openers whose close has completed, in order
     let closed: Arc<Mutex<Vec<u32>>> = Arc::new(Mutex::new(Vec::new()));
+    // openers whose wait for the lock was interrupted by a signal: they report an error and
+    // never get in, which is a legitimate outcome
+    let interrupted: Arc<Mutex<Vec<u32>>> = Arc::new(Mutex::new(Vec::new()));
+    simos::set_flock_eintr_after(p.eintr_after as u64);
     let mut hs = Vec::new();
     for o in 0..p.openers {
         let path = path.clone();
         let (inside, closed) = (inside.clone(), closed.clone());
         let hold = p.hold;
         let grow = p.grow;
+        let clone_drop = p.clone_drop;
+        let eintr = p.eintr_after > 0;
+        let interrupted = interrupted.clone();
         hs.push(shuttle::thread::spawn(move || {
             let before: Vec<u32> = closed.lock().unwrap().clone();
             let db = match catch(|| OpenOptions::new().pagesize(1024).num_pages(8).open(&path)) {
                 Ok(Ok(d)) => d,
+                Ok(Err(jammdb::Error::Io(e))) if eintr && e.kind() == std::io::ErrorKind::Interrupted => {
+                    probe("open_interrupted_by_signal");
+                    interrupted.lock().unwrap().push(o);
+                    return;
+                }
                 Ok(Err(e)) => return report("sh-open", "open error", format!("opener {}: open returned {}", o, e)),
                 Err(pn) => return report("sh-open", "open panic", format!("opener {}: open panicked: {}", o, pn)),
             };
+            if clone_drop {
+                // a clone of the handle going away must not give up the lock the other clone needs
+                let c = db.clone();
+                drop(c);
+                probe("clone_dropped_while_holding");
+            }
             let n = inside.fetch_add(1, Ordering::SeqCst) + 1;
             if n > 1 {
                 report("sh-exclusive", "two inside", format!("opener {} got the database while {} other opener(s) hold it", o, n - 1));
@@ -551,12 +582,17 @@ fn scenario_c13(p: Params, path: String) {
             report("sh-panic", "join", "an opener panicked".into());
         }
     }
+    simos::set_flock_eintr_after(0);
+    let skipped: Vec<u32> = interrupted.lock().unwrap().clone();
     // afterwards: every marker is there
     let r = catch(|| -> Result<(), String> {
         let db = OpenOptions::new().pagesize(1024).open(&path).map_err(|e| e.to_string())?;
         let tx = db.tx(false).map_err(|e| e.to_string())?;
         let b = tx.get_bucket("markers").map_err(|e| e.to_string())?;
         for o in 0..p.openers {
+            if skipped.contains(&o) {
+                continue;
+            }
             if b.get(format!("opener{}", o)).is_none() {
                 return Err(format!("marker of opener {} lost", o));
             }
